@@ -9,7 +9,7 @@
    What is VALIDATED case by case (lib/c08.py): that the implementation's compiler output is accepted —
    the proved verifier runs inside Coq on the byte-code dumped from the real parser. *)
 From Coq Require Import NArith ZArith List Bool String.
-From DS Require Import Model.Bytecode Model.Verify Proofs.VerifyProofs Model.Ast Model.Compile Proofs.CompileVerified.
+From DS Require Import Model.Bytecode Model.Verify Proofs.VerifyProofs Model.Ast Model.Compile Proofs.CompileVerified Proofs.CompileInfer.
 Import ListNotations.
 
 (* an inductive annotation is preserved by every step, and no consistent state is stuck *)
@@ -64,7 +64,13 @@ Theorem C08_compile_never_stuck :
   forall (p : stmt) s, reachable (to_shape (compile p)) s -> forall r, sstep (to_shape (compile p)) s <> Stuck r.
 Proof. exact compile_never_stuck. Qed.
 
+(* ... and the INFERENCE itself (verify, what the check runs on real dumps) accepts every such program: no annotation has to
+   be supplied *)
+Theorem C08_compile_verified : forall p : stmt, verify (to_shape (compile p)) = true.
+Proof. exact compile_verified. Qed.
+
 Print Assumptions C08_compile_never_stuck.
+Print Assumptions C08_compile_verified.
 Print Assumptions C08_verify_sound.
 Print Assumptions C08_no_stuck_reachable.
 Print Assumptions C08_block_depth_unique.
